@@ -452,18 +452,22 @@ class Tdf:
 
         # delete entry
         self.entries.remove(oldEntry)
-        self.handler.seek(64 + 288 * oldEntryPos, 0)
-        # update all the offsets of the entries preceding the removed one
-        for entry in self.entries[oldEntryPos:]:
-            entry.offset -= oldEntry.size
-            entry._write(self.handler)
+        # every block stored behind the removed one moves down by its size,
+        # wherever its entry is listed in the table, and the entries listed
+        # after the removed one move up one slot
+        for n, entry in enumerate(self.entries):
+            stored_behind = entry.offset > oldEntry.offset
+            if stored_behind:
+                entry.offset -= oldEntry.size
+            if stored_behind or n >= oldEntryPos:
+                self.handler.seek(64 + 288 * n, 0)
+                entry._write(self.handler)
 
-        # calculate new offset for the next unused slot
-        # (the previous slot's offset + size, once it has been shifted)
-        newOffset = (
-            self.entries[-1].offset + self.entries[-1].size
-            if self.entries
-            else (64 + 288 * self.nEntries)
+        # calculate new offset for the next unused slot: the end of the data
+        # that is left (once everything has been shifted)
+        newOffset = max(
+            (entry.offset + entry.size for entry in self.entries),
+            default=64 + 288 * self.nEntries,
         )
 
         # add new unused slot at the end
@@ -479,6 +483,7 @@ class Tdf:
             comment="Generated by basicTDF",
         )
         self.entries.append(newEntry)
+        self.handler.seek(64 + 288 * (len(self.entries) - 1), 0)
         newEntry._write(self.handler)
 
         self.handler.seek(oldEntry.offset + oldEntry.size, 0)
